@@ -13,9 +13,9 @@ from sx.runner import Harness
 
 ID = "C14"
 MANIFEST = {
-    "technique": "bounded model checking with solver-decided nondeterministic choice (SX engine): the operation history on a real PackageWrapper (make_wrapper over a real DepSet attribute and snakeoil's LimitedChangeSet) is a sequence of symbolic selectors over {enable/disable of free, locked-on and locked-off flags (single and multi-flag), rollback(p), commit, read}; the engine forks over every feasible history, runs the real methods and after every step compares each wrapped attribute with the raw attribute evaluated under the wrapper's current USE set and checks that a refused request left the USE set unchanged",
-    "level_text": "Bounded model checking, exhaustive within the bound: every history of <= 4 (quick) / 5 (thorough) operations from a 15-operation menu, with attribute reads both optional in between and mandatory at the end, on packages starting from two initial USE sets. Selector-only: the solver does the exhaustiveness bookkeeping; the cache reuse-point arithmetic is exercised concretely along each history.",
-    "level_note": "selector-only harness (labelled as such). The oracle is evaluation of the raw DepSet under the wrapper's own current USE set (LimitedChangeSet is a dependency and is not modelled). Violations are replayed natively from the concrete history.",
+    "technique": "bounded model checking with solver-decided nondeterministic choice (SX engine): the operation history on a real PackageWrapper (make_wrapper over a real DepSet attribute and snakeoil's LimitedChangeSet) is a sequence of symbolic selectors over {enable/disable of free, locked-on and locked-off flags (single and multi-flag), rollback(p), commit, read}; the engine forks over every feasible history, runs the real methods and after every step compares each wrapped attribute with the raw attribute evaluated under the wrapper's current USE set and checks that a refused request left the USE set unchanged; plus an inductive step over the cache bookkeeping: from a state reached by <=2 operations the reuse point and the stamps of the cached attributes are replaced by unbounded symbolic integers (cached values fresh or stale by choice) constrained only by the invariant 'stamp <= reuse point, and stamp == reuse point implies the value is the evaluation under the current USE set'; one operation runs on the real wrapper with those integers flowing through its comparisons and increments, and z3 proves the invariant afterwards and that a read returns the fresh evaluation",
+    "level_text": "Bounded model checking, exhaustive within the bound: every history of <= 4 (quick) / 5 (thorough) operations from a 15-operation menu, with attribute reads both optional in between and mandatory at the end, on packages starting from two initial USE sets. Selector-only: the solver does the exhaustiveness bookkeeping; the cache reuse-point arithmetic is exercised concretely along each history. Inductive step: for every operation of the menu, from every bookkeeping state satisfying the invariant (all integers), the invariant holds again and reads are fresh; since the initial state satisfies it, stale reads are excluded for histories of any length as far as the bookkeeping is concerned (the USE-set side is covered by the bounded histories).",
+    "level_note": "The history harness is selector-only (labelled as such); the step harness is symbolic in the reuse point and stamps. The oracle is evaluation of the raw DepSet under the wrapper's own current USE set (LimitedChangeSet is a dependency and is not modelled). Violations are replayed natively from the concrete history.",
 }
 META = {
     "modules": ["pkgcore.package.conditionals"],
@@ -23,7 +23,7 @@ META = {
     "bounds": {"quick": "all histories of <=4 operations over the 15-operation menu x 2 initial USE sets, reads after the history on both wrapped attributes", "thorough": "histories of <=5 operations"},
     "outside": ["histories longer than 5", "request_enable/request_disable on wrapped attributes (force_True/force_False machinery)", "more than 3 flags"],
     "assumptions": [],
-    "selector_only": True,
+    "selector_only": False,
 }
 
 OPS = [("en", ("a",)), ("en", ("c",)), ("en", ("b",)), ("en", ("a", "c")), ("en", ("d", "a")), ("dis", ("a",)), ("dis", ("b",)), ("dis", ("d",)), ("dis", ("a", "b")), ("dis", ("d", "a")),
@@ -123,8 +123,117 @@ class HistHarness(Harness):
         return obs["bad"] is None
 
 
+# ---------------------------------------------------------------- inductive step over the cache bookkeeping
+USE_SETS = [(), ("a",), ("d",), ("a", "d")]  # free flags; b is locked on, c locked off
+
+
+class StepHarness(Harness):
+    """one operation from an arbitrary bookkeeping state: the reuse point and the stamps of the cached attributes are
+    unbounded symbolic integers; a cached value is fresh or stale by choice.  Invariant: every stamp is <= the reuse point,
+    and an attribute stamped with the current reuse point holds the evaluation under the current USE set."""
+
+    active = frozenset()
+
+    def region(self, name, inp):
+        self.active = set(self.active) | {name}
+        return False
+
+    def setup(self, eng):
+        inp = {"R": eng.int("reuse_pt"), "pre": [eng.int(f"prefix_op{i}", 0, len(OPS) - 2) for i in range(self.ob["prefix"])]}
+        for attr in ("depend", "rdepend"):
+            inp[attr] = {"state": eng.int(f"cache_{attr}", 0, 2), "stamp": eng.int(f"stamp_{attr}"), "stale_use": eng.int(f"stale_use_{attr}", 0, len(USE_SETS) - 1)}
+        return inp
+
+    def body(self, inp):
+        ob = self.ob
+        sym = core.ENG is not None
+        fx = (lambda v: core.fix(v)) if sym else (lambda v: v)
+        raw = RawPkg()
+        w = wrapper_cls()(raw, initial_settings=["b"] + (["d"] if ob["init"] == 1 else []), unchangable_settings=["b", "c"])
+        for i in fx(inp["pre"]):
+            kind, arg = OPS[i]
+            try:
+                if kind == "en":
+                    w.request_enable("use", *arg)
+                elif kind == "dis":
+                    w.request_disable("use", *arg)
+                elif kind == "rb" and arg <= w.changes_count():
+                    w.rollback(arg)
+                elif kind == "commit":
+                    w.commit()
+            except KeyError:
+                return {"skip": "prefix hit the known LimitedChangeSet no-op defect"}
+        cur = frozenset(w.use)
+        # ---- arbitrary bookkeeping state satisfying the invariant
+        R = inp["R"]
+        object.__setattr__(w, "_reuse_pt", R)
+        cache = {}
+        inv = []
+        for attr in ("depend", "rdepend"):
+            st = fx(inp[attr]["state"])
+            if st == 0:
+                continue
+            S = inp[attr]["stamp"]
+            if st == 1:
+                val = getattr(raw, attr).evaluate_depset(cur)
+            else:
+                other = frozenset(USE_SETS[fx(inp[attr]["stale_use"])]) | {"b"}
+                val = getattr(raw, attr).evaluate_depset(other)
+            fresh = str(val) == str(getattr(raw, attr).evaluate_depset(cur))
+            cache[attr] = (S, val)
+            inv.append(core.lift(S) <= core.lift(R))
+            if not fresh:
+                inv.append(core.lift(S) != core.lift(R))
+        object.__setattr__(w, "_cached_wrapped", cache)
+        if sym:
+            for e in inv:
+                core.ENG.assume(e)
+        else:
+            if not all(z3.is_true(z3.simplify(e)) for e in inv):
+                return {"skip": "state outside the invariant"}
+        # ---- one operation
+        kind, arg = OPS[ob["op"]]
+        read = None
+        try:
+            if kind == "en":
+                w.request_enable("use", *arg)
+            elif kind == "dis":
+                w.request_disable("use", *arg)
+            elif kind == "rb":
+                if arg > w.changes_count():
+                    return {"skip": "rollback point beyond the change log"}
+                w.rollback(arg)
+            elif kind == "commit":
+                w.commit()
+            else:
+                read = {a: str(getattr(w, a)) for a in ("depend", "rdepend")}
+        except KeyError:
+            return {"skip": "known LimitedChangeSet no-op defect"}
+        after = frozenset(w.use)
+        want = {a: str(getattr(raw, a).evaluate_depset(after)) for a in ("depend", "rdepend")}
+        post = []
+        R2 = w._reuse_pt
+        for attr, (S2, v2) in w._cached_wrapped.items():
+            post.append({"attr": attr, "stamp": S2, "fresh": str(v2) == want[attr]})
+        return {"op": [kind, list(arg) if isinstance(arg, tuple) else arg], "use_before": sorted(cur), "use_after": sorted(after), "R2": R2, "post": post, "read_ok": None if read is None else read == want}
+
+    def prop(self, inp, obs):
+        if "skip" in obs:
+            return True
+        conds = []
+        if obs["read_ok"] is not None:
+            conds.append(z3.BoolVal(bool(obs["read_ok"])))
+        R2 = core.lift(obs["R2"])
+        for p in obs["post"]:
+            S2 = core.lift(p["stamp"])
+            conds.append(S2 <= R2)
+            if not p["fresh"]:
+                conds.append(S2 != R2)
+        return z3.And(*conds) if conds else True
+
+
 def harness(ob):
-    return HistHarness(ob)
+    return StepHarness(ob) if ob.get("step") else HistHarness(ob)
 
 
 UNIVERSE = {}
@@ -141,5 +250,9 @@ def obligations(tier, seed):
                 pl = 1 if n <= 4 else 2
                 for p in itertools.product(range(len(OPS)), repeat=pl):
                     obs.append({"oid": f"init={init}|n={n}|first={','.join(map(str, p))}", "init": init, "n": n, "prefix": list(p), "max_paths": 500000, "max_s": 1200})
+    for init in (0, 1):
+        for prefix in (0, 1, 2) if tier != "quick" else (0, 1):
+            for op in range(len(OPS)):
+                obs.append({"oid": f"step|init={init}|prefix={prefix}|op={OPS[op][0]}:{OPS[op][1]}", "step": True, "init": init, "prefix": prefix, "op": op, "max_paths": 500000, "max_s": 1200})
     UNIVERSE[tier] = {"histories": 2 * sum(len(OPS) ** n for n in range(1, top + 1))}
     return obs
